@@ -177,7 +177,7 @@ def load_findings():
 
 
 def write_replay(pid, tier, seed, sig, e):
-    d = os.path.join(base.ROOT, "replays", pid)
+    d = os.path.join(base.ROOT, "replays" if os.path.realpath(base.REPO) == "/repo" else os.path.join(".tmp", "replays-scratch"), pid)
     os.makedirs(d, exist_ok=True)
     rec = {"property": pid, "tier": tier, "seed": seed, "index": e.get("index"), "signature": sig,
            "case": e.get("case"), "detail": e.get("detail"), "count": e.get("count"),
@@ -322,7 +322,9 @@ def write_evidence(mod, pid, tier, seed, ctx, wall, unlisted, known_hit, inconcl
             cov["exhaustive_scope"] = ex if isinstance(ex, str) else "see rule"
     ev = {"property_id": pid, "tier": tier, "seed": seed, "level": mod.LEVEL, "coverage": cov,
           "assumptions": list(mod.ASSUMPTIONS), "wall_s": round(wall, 2), "violations": unlisted}
-    d = os.path.join(base.ROOT, "evidence")
+    # evidence describes runs against /repo itself; runs against a scratch copy (VERIF_REPO=..., self-validation on
+    # deliberately broken trees) must not overwrite it
+    d = os.path.join(base.ROOT, "evidence") if os.path.realpath(base.REPO) == "/repo" else os.path.join(base.ROOT, ".tmp", "evidence-scratch")
     os.makedirs(d, exist_ok=True)
     with open(os.path.join(d, pid + ".json"), "w") as fh:
         json.dump(ev, fh, indent=1, default=base._default)
